@@ -250,13 +250,18 @@ Proof.
     eapply tev_trans; [|apply tev_blocked]. apply tev_same; reflexivity.
 Qed.
 
+Lemma tev_to_bal2 g w : tev g (to_bal2 g w).
+Proof. apply tev_same; reflexivity. Qed.
+Ltac tev_bal := first
+  [ apply tev_blocked
+  | (eapply tev_trans; [|apply tev_blocked]; apply tev_same; reflexivity)
+  | (apply tev_same; reflexivity)
+  | (unfold ev; match goal with |- tev ?g (set_ev (bal_done ?g1 ?w ?o ?r ?lk) _) =>
+       pose proof (tev_bal_done g1 w o r lk) as H; unfold tev in *; simpl in *; exact H end) ].
 Lemma tev_do_bal g w s : tev g (do_bal g w s).
-Proof.
-  unfold do_bal. brk;
-    try (eapply tev_trans; [|apply tev_blocked]; apply tev_same; reflexivity);
-    try (unfold ev; match goal with |- tev ?g (set_ev (bal_done ?g1 ?w ?o ?r ?lk) _) =>
-           pose proof (tev_bal_done g1 w o r lk) as H; unfold tev in *; simpl in *; exact H end).
-Qed.
+Proof. unfold do_bal. brk; tev_bal. Qed.
+Lemma tev_do_bal2 g w s : tev g (do_bal2 g w s).
+Proof. unfold do_bal2. brk; tev_bal. Qed.
 
 Lemma find_none_keys (ref : string) l :
   find (fun t => String.eqb (t_ref t) ref && negb (t_pend t)) l = None -> ~ In ref (flat_map tkeys l).
@@ -338,6 +343,7 @@ Proof.
     apply andb_true_iff in E. destruct E as [E _]. apply andb_true_iff in E. destruct E as [_ E].
     right; right. destruct (t_rev x); [discriminate|reflexivity].
   - apply tev_do_bal.
+  - apply tev_do_bal2.
   - apply tev_vol_loop.
   - apply tev_do_tx.
   - unfold do_adv. brk; try (apply tev_blocked); apply tev_same; reflexivity.
@@ -479,13 +485,16 @@ Proof.
   - brk; try (eapply lev_trans; [|apply IH]; apply lev_same; reflexivity).
     eapply lev_trans; [|apply lev_blocked]. apply lev_same; reflexivity.
 Qed.
+Ltac lev_bal := first
+  [ apply lev_blocked
+  | (eapply lev_trans; [|apply lev_blocked]; apply lev_same; reflexivity)
+  | (apply lev_same; reflexivity)
+  | (unfold ev; match goal with |- lev ?g (set_ev (bal_done ?g1 ?w ?o ?r ?lk) _) =>
+       pose proof (lev_bal_done g1 w o r lk) as H; unfold lev in *; simpl in *; exact H end) ].
 Lemma lev_do_bal g w s : lev g (do_bal g w s).
-Proof.
-  unfold do_bal. brk;
-    try (eapply lev_trans; [|apply lev_blocked]; apply lev_same; reflexivity);
-    try (unfold ev; match goal with |- lev ?g (set_ev (bal_done ?g1 ?w ?o ?r ?lk) _) =>
-           pose proof (lev_bal_done g1 w o r lk) as H; unfold lev in *; simpl in *; exact H end).
-Qed.
+Proof. unfold do_bal. brk; lev_bal. Qed.
+Lemma lev_do_bal2 g w s : lev g (do_bal2 g w s).
+Proof. unfold do_bal2. brk; lev_bal. Qed.
 Lemma lev_do_tx g w s : lev g (do_tx g w s).
 Proof.
   unfold do_tx. destruct (my_pending_tx g w); brk; try (apply lev_same; reflexivity);
@@ -562,6 +571,7 @@ Proof.
   - unfold do_ik. brk; apply lev_same; reflexivity.
   - unfold do_rev. brk; try (apply lev_blocked); apply lev_same; reflexivity.
   - apply lev_do_bal.
+  - apply lev_do_bal2.
   - apply lev_vol_loop.
   - apply lev_do_tx.
   - unfold do_adv. destruct (g_adv g) as [h|] eqn:Ha.
@@ -589,8 +599,9 @@ Inductive vevo (w : wid) : list vrow -> list vrow -> Prop :=
 | ve_map l f :
     (forall x, v_key (f x) = v_key x) ->
     (forall x h, v_lock x = Some h -> h <> w -> f x = x) ->
-    (forall x, v_lock (f x) = None -> (v_pend (f x) = 0 /\ v_upd (f x) = false) \/ f x = x) ->
-    (forall x, v_new x = false -> v_new (f x) = false) -> vevo w l (map f l)
+    (forall x, v_lock (f x) = None -> (v_pend (f x) = 0 /\ v_upd (f x) = false /\ v_new (f x) = false) \/ f x = x) ->
+    (forall x, v_new x = false -> v_new (f x) = false) ->
+    (forall x, v_lock (f x) = v_lock x \/ v_lock (f x) = None \/ v_lock (f x) = Some w) -> vevo w l (map f l)
 | ve_filter l p : (forall x, p x = false -> v_new x = true /\ v_lock x = Some w) -> vevo w l (filter p l)
 | ve_trans l1 l2 l3 : vevo w l1 l2 -> vevo w l2 l3 -> vevo w l1 l3.
 
@@ -621,17 +632,17 @@ Qed.
 (* a row locked by another writer is not touched *)
 Lemma vevo_frame w l l' : vevo w l l' -> forall k r h, vfind l k = Some r -> v_lock r = Some h -> h <> w -> vfind l' k = Some r.
 Proof.
-  induction 1 as [l|l row Hn Hl|l f Hk Ho Hu Hnw|l p Hp|l1 l2 l3 _ IH1 _ IH2]; intros k r h Hf Hlk Hne; auto.
+  induction 1 as [l|l row Hn Hl|l f Hk Ho Hu Hnw Hlk'|l p Hp|l1 l2 l3 _ IH1 _ IH2]; intros k r h Hf Hlk Hne; auto.
   - apply vfind_app_some; auto.
   - rewrite vfind_map by auto. rewrite Hf. simpl. rewrite (Ho r h); auto.
   - apply vfind_filter; auto. destruct (p r) eqn:E; auto. destruct (Hp r E) as [_ H]. congruence.
   - eauto.
 Qed.
 (* unlocked rows carry no pending change *)
-Definition unlocked_clean (l : list vrow) : Prop := forall r, In r l -> v_lock r = None -> v_pend r = 0 /\ v_upd r = false.
+Definition unlocked_clean (l : list vrow) : Prop := forall r, In r l -> v_lock r = None -> v_pend r = 0 /\ v_upd r = false /\ v_new r = false.
 Lemma vevo_clean w l l' : vevo w l l' -> unlocked_clean l -> unlocked_clean l'.
 Proof.
-  induction 1 as [l|l row Hn Hl|l f Hk Ho Hu Hnw|l p Hp|l1 l2 l3 _ IH1 _ IH2]; intros U; auto.
+  induction 1 as [l|l row Hn Hl|l f Hk Ho Hu Hnw Hlk'|l p Hp|l1 l2 l3 _ IH1 _ IH2]; intros U; auto.
   - intros r Hr Hlk. apply in_app_iff in Hr. destruct Hr as [Hr|[Hr|[]]]; [auto|]. subst. congruence.
   - intros r Hr Hlk. apply in_map_iff in Hr. destruct Hr as [x [Hx Hin]]. subst. destruct (Hu x Hlk) as [H|H]; auto.
     rewrite H in *. auto.
@@ -640,7 +651,7 @@ Qed.
 (* a committed row never disappears *)
 Lemma vevo_exists w l l' : vevo w l l' -> forall k r, vfind l k = Some r -> v_new r = false -> exists r', vfind l' k = Some r' /\ v_new r' = false.
 Proof.
-  induction 1 as [l|l row Hn Hl|l f Hk Ho Hu Hnw|l p Hp|l1 l2 l3 _ IH1 _ IH2]; intros k r Hf Hnew; eauto.
+  induction 1 as [l|l row Hn Hl|l f Hk Ho Hu Hnw Hlk'|l p Hp|l1 l2 l3 _ IH1 _ IH2]; intros k r Hf Hnew; eauto.
   - exists r. split; auto. apply vfind_app_some; auto.
   - exists (f r). rewrite vfind_map by auto. rewrite Hf. simpl. auto.
   - exists r. split; auto. apply vfind_filter; auto. destruct (p r) eqn:E; auto. destruct (Hp r E) as [H _]. congruence.
@@ -664,6 +675,7 @@ Proof.
   - intros x h Hl Hne. unfold v_release. rewrite Hl, owner_is_other; auto.
   - intros x. unfold v_release. destruct (owner_is (v_lock x) w); simpl; auto.
   - intros x Hn. unfold v_release. destruct (owner_is _ _); simpl; auto.
+  - intros x. unfold v_release. destruct (owner_is _ _); simpl; auto.
 Qed.
 Lemma vev_blocked g w h l : vev w g (blocked g w h l).
 Proof. unfold blocked. destruct (reaches _ _ _ _); [apply (vev_abort g w)|apply vev_same; reflexivity]. Qed.
@@ -681,6 +693,7 @@ Proof.
   - intros x h Hx Hne. rewrite (free_for_other w x h); auto. rewrite andb_false_r. reflexivity.
   - intros x. destruct (_ && _); auto. rewrite Hl. discriminate.
   - intros x Hx. destruct (_ && _); auto. rewrite Hn; auto.
+  - intros x. destruct (_ && _); auto.
 Qed.
 
 Lemma vev_vol_loop ks : forall g w i, vev w g (vol_loop g w ks i).
@@ -699,18 +712,18 @@ Proof.
     + eapply vev_trans; [|apply IH]. unfold vev; simpl. apply ve_app; auto.
 Qed.
 
+Ltac vev_bal Hf := first
+  [ apply vev_blocked
+  | (eapply vev_trans; [|apply vev_blocked]; apply vev_same; reflexivity)
+  | (apply vev_same; reflexivity)
+  | (unfold ev; match goal with |- vev ?w ?g (set_ev (bal_done ?g1 ?w ?o ?r ?lk) _) =>
+       apply (vev_trans w g g1); [|pose proof (vev_bal_done g1 w o r lk) as H; unfold vev in *; simpl in *; exact H] end;
+     first [apply vev_same; reflexivity | unfold vev; simpl; apply vevo_vtake; auto])
+  | (unfold vev, ev, to_bal2; simpl; apply ve_app; auto) ].
 Lemma vev_do_bal g w s : vev w g (do_bal g w s).
-Proof.
-  unfold do_bal. destruct (vfind (g_vols g) (src_key (w_op s))) as [x|] eqn:Hf.
-  - brk;
-    try (eapply vev_trans; [|apply vev_blocked]; apply vev_same; reflexivity);
-    try (unfold ev; match goal with |- vev ?w ?g (set_ev (bal_done ?g1 ?w ?o ?r ?lk) _) =>
-           apply (vev_trans w g g1); [|pose proof (vev_bal_done g1 w o r lk) as H; unfold vev in *; simpl in *; exact H] end;
-         first [apply vev_same; reflexivity | unfold vev; simpl; apply vevo_vtake; auto]).
-  - unfold ev. match goal with |- vev ?w ?g (set_ev (bal_done ?g1 ?w ?o ?r ?lk) _) =>
-       apply (vev_trans w g g1); [|pose proof (vev_bal_done g1 w o r lk) as H; unfold vev in *; simpl in *; exact H] end.
-    unfold vev; simpl. apply ve_app; auto.
-Qed.
+Proof. unfold do_bal. destruct (vfind (g_vols g) (src_key (w_op s))) as [x|] eqn:Hf; brk; vev_bal Hf. Qed.
+Lemma vev_do_bal2 g w s : vev w g (do_bal2 g w s).
+Proof. unfold do_bal2. destruct (vfind (g_vols g) (src_key (w_op s))) as [x|] eqn:Hf; brk; vev_bal Hf. Qed.
 
 Lemma step_vev g w : vev w g (step g w).
 Proof.
@@ -719,6 +732,7 @@ Proof.
   - unfold do_ik. brk; apply vev_same; reflexivity.
   - unfold do_rev. brk; try (apply vev_blocked); apply vev_same; reflexivity.
   - apply vev_do_bal.
+  - apply vev_do_bal2.
   - apply vev_vol_loop.
   - unfold do_tx. destruct (my_pending_tx g w); brk; try (apply vev_same; reflexivity);
       try (match goal with |- vev ?w ?g (blocked ?g1 ?w ?h ?l) => pose proof (vev_blocked g1 w h l) as H; unfold vev in *; simpl in *; exact H end);
@@ -733,6 +747,7 @@ Proof.
     + intros x h Hl Hne. unfold v_commit. rewrite Hl, owner_is_other; auto.
     + intros x. unfold v_commit. destruct (owner_is (v_lock x) w); simpl; auto.
     + intros x Hn. unfold v_commit. destruct (owner_is _ _); simpl; auto.
+    + intros x. unfold v_commit. destruct (owner_is _ _); simpl; auto.
   - unfold do_rollback. pose proof (vev_abort g w) as H. brk; unfold vev in *; simpl in *; exact H.
   - unfold do_fetch. brk; apply vev_same; reflexivity.
   - apply vev_same; reflexivity.
@@ -791,12 +806,15 @@ Proof.
     eapply fev_trans; [apply fev_upd|apply fev_blocked].
 Qed.
 
+Ltac fev_bal := first
+  [ apply fev_blocked
+  | (eapply fev_trans; [apply fev_upd|apply fev_blocked])
+  | (apply fev_ev; first [apply fev_bal_done | eapply fev_trans; [apply fev_set_vols|apply fev_bal_done]
+                         | unfold to_bal2; apply fev_upd | unfold to_bal2; eapply fev_trans; [apply fev_set_vols|apply fev_upd]]) ].
 Lemma fev_do_bal g w s : fev w g (do_bal g w s).
-Proof.
-  unfold do_bal. brk;
-    try (eapply fev_trans; [apply fev_upd|apply fev_blocked]);
-    try (apply fev_ev; first [apply fev_bal_done | eapply fev_trans; [apply fev_set_vols|apply fev_bal_done]]).
-Qed.
+Proof. unfold do_bal. brk; fev_bal. Qed.
+Lemma fev_do_bal2 g w s : fev w g (do_bal2 g w s).
+Proof. unfold do_bal2. brk; fev_bal. Qed.
 
 Lemma fev_ws w g g' : g_c06 g' = g_c06 g -> (exists f, g_ws g' = upd_nth (g_ws g) w f) -> fev w g g'.
 Proof. intros Hc [f Hf]. unfold fev. rewrite Hf. split; [apply wsev_upd|exact Hc]. Qed.
@@ -832,6 +850,7 @@ Proof.
   - unfold do_ik. brk; fev_tac.
   - unfold do_rev. brk; fev_tac.
   - apply fev_do_bal.
+  - apply fev_do_bal2.
   - apply fev_vol_loop.
   - apply fev_do_tx.
   - unfold do_adv. brk; fev_tac.
@@ -977,6 +996,27 @@ Proof.
       split; [auto|split; [auto|]]. exists r. split; auto. simpl. apply vfind_app_some; auto.
 Qed.
 
+Lemma Jw_to_bal2 g w : Jw (to_bal2 g w) w.
+Proof.
+  apply Jw_dead. intros s Hn. unfold to_bal2 in Hn. simpl in Hn. rewrite nth_upd_same in Hn.
+  destruct (nth_error (g_ws g) w); simpl in Hn; [|discriminate]. inversion Hn; subst. left. reflexivity.
+Qed.
+(* SELECT ... FOR UPDATE takes the lock of a free row: unlocked rows carry no pending change *)
+Lemma Jw_lock_free g w s x :
+  unlocked_clean (g_vols g) -> nth_error (g_ws g) w = Some s -> vfind (g_vols g) (src_key (w_op s)) = Some x -> v_lock x = None ->
+  Jw (bal_done (set_vols g (vtake (g_vols g) w (src_key (w_op s))
+        (fun x0 => {| v_key := v_key x0; v_bal := v_bal x0; v_pend := v_pend x0; v_lock := Some w; v_new := v_new x0; v_upd := v_upd x0 |})))
+        w (w_op s) (v_bal x) true) w.
+Proof.
+  intros HU Hs Hf Hl.
+  set (f := fun x0 => {| v_key := v_key x0; v_bal := v_bal x0; v_pend := v_pend x0; v_lock := Some w; v_new := v_new x0; v_upd := v_upd x0 |}).
+  replace (v_bal x) with (v_bal (f x)) by reflexivity.
+  apply (Jw_bal_done_locked (set_vols g (vtake (g_vols g) w (src_key (w_op s)) f)) w s (f x)); auto.
+  - simpl. unfold vtake. rewrite vfind_map by (intros y; destruct (_ && _); reflexivity). rewrite Hf. simpl.
+    destruct (vfind_key _ _ _ Hf) as [Hk _]. rewrite Hk, ckey_eqb_refl. unfold free_for. rewrite Hl. reflexivity.
+  - simpl. destruct (vfind_key _ _ _ Hf) as [_ Hin]. apply (HU x Hin Hl).
+Qed.
+
 (* the writer's own store call keeps its invariant *)
 Lemma Jw_own g w : unlocked_clean (g_vols g) -> Jw g w -> Jw (step g w) w.
 Proof.
@@ -988,20 +1028,17 @@ Proof.
       apply Jw_ev; apply Jw_upd; try (apply (Jw_same g); auto; reflexivity); upd_side.
   - (* bal *) unfold do_bal. destruct (vfind (g_vols g) (src_key (w_op s))) as [x|] eqn:Hf.
     + destruct (v_lock x) as [h|] eqn:Hl.
-      * brk; try (apply Jw_ev; apply Jw_bal_done_unlocked);
-          apply Jw_blocked; apply Jw_upd; auto; upd_side.
-      * brk; try (apply Jw_ev; apply Jw_bal_done_unlocked).
-        apply Jw_ev.
-        set (f := fun x0 => {| v_key := v_key x0; v_bal := v_bal x0; v_pend := v_pend x0; v_lock := Some w; v_new := v_new x0; v_upd := v_upd x0 |}).
-        replace (v_bal x) with (v_bal (f x)) by reflexivity.
-        apply (Jw_bal_done_locked (set_vols g (vtake (g_vols g) w (src_key (w_op s)) f)) w s (f x)); auto.
-        -- simpl. unfold vtake. rewrite vfind_map by (intros y; destruct (_ && _); reflexivity). rewrite Hf. simpl.
-           destruct (vfind_key _ _ _ Hf) as [Hk _]. rewrite Hk, ckey_eqb_refl. unfold free_for. rewrite Hl. reflexivity.
-        -- simpl. destruct (vfind_key _ _ _ Hf) as [_ Hin]. apply (HU x Hin Hl).
-    + apply Jw_ev.
-      set (row := {| v_key := src_key (w_op s); v_bal := 0; v_pend := 0; v_lock := Some w; v_new := true; v_upd := false |}).
-      apply (Jw_bal_done_locked (set_vols g (g_vols g ++ [row])) w s row); auto.
-      simpl. rewrite vfind_app_none by auto. simpl. rewrite ckey_eqb_refl. reflexivity.
+      * brk; try (apply Jw_blocked; auto; fail); try (apply Jw_blocked; apply Jw_upd; auto; upd_side); apply Jw_ev; apply Jw_to_bal2.
+      * brk; [apply Jw_ev; apply Jw_to_bal2|]. apply Jw_ev. apply Jw_lock_free; auto.
+    + apply Jw_ev. apply Jw_to_bal2.
+  - (* bal2 *) unfold do_bal2. destruct (vfind (g_vols g) (src_key (w_op s))) as [x|] eqn:Hf.
+    + destruct (v_lock x) as [h|] eqn:Hl.
+      * destruct (Nat.eqb h w) eqn:Eh.
+        -- apply Nat.eqb_eq in Eh. subst h. destruct (v_pend x =? 0) eqn:Ep; apply Jw_ev; [|apply Jw_bal_done_unlocked].
+           apply Z.eqb_eq in Ep. apply (Jw_bal_done_locked g w s x); auto.
+        -- apply Jw_blocked; auto.
+      * apply Jw_ev. apply Jw_lock_free; auto.
+    + apply Jw_ev. apply Jw_bal_done_unlocked.
   - (* vol *) unfold do_vol. apply (Jw_vol_loop _ g w (w_volk s) s); auto.
     intros k d Hin. apply vol_keys_src. eapply in_skipn; eauto.
   - (* tx *) unfold do_tx. destruct (my_pending_tx g w).
@@ -1119,7 +1156,10 @@ Proof.
   destruct (w_pc s).
   - unfold do_ik, fail_soft. brk; oev_tac.
   - unfold do_rev, fail_soft. brk; oev_tac.
-  - unfold do_bal. brk; try (eapply oev_trans; [|apply oev_blocked]; oev_calc);
+  - unfold do_bal, to_bal2. brk; try (apply oev_blocked); try (eapply oev_trans; [|apply oev_blocked]; oev_calc); try oev_calc;
+      unfold ev; match goal with |- oev ?g (set_ev (bal_done ?g1 ?w ?o ?r ?lk) _) =>
+        pose proof (oev_bal_done g1 w o r lk) as H; unfold oev in *; simpl in *; exact H end.
+  - unfold do_bal2. brk; try (apply oev_blocked);
       unfold ev; match goal with |- oev ?g (set_ev (bal_done ?g1 ?w ?o ?r ?lk) _) =>
         pose proof (oev_bal_done g1 w o r lk) as H; unfold oev in *; simpl in *; exact H end.
   - apply oev_vol_loop.
@@ -1133,144 +1173,165 @@ Proof.
   - apply oev_same; reflexivity.
 Qed.
 
-(* the source rows of all bounded requests exist (committed) - and keep existing *)
-Definition Eg (g : gst) : Prop :=
-  forall o a, In o (map w_op (g_ws g)) -> allowance o = Some a -> exists r, vfind (g_vols g) (src_key o) = Some r /\ v_new r = false.
-Lemma step_Eg g w : Eg g -> Eg (step g w).
+(* ---------------------------------------------------------------- C06: every COMMIT of a bounded request held the lock *)
+(* the row GetBalances reads with its second statement: a committed row (not ours), or the row we have just inserted *)
+Definition Qrow (vs : list vrow) (w : wid) (k : ckey) : Prop :=
+  exists r, vfind vs k = Some r /\ ((v_new r = false /\ v_lock r <> Some w) \/ (v_lock r = Some w /\ v_pend r = 0)).
+Lemma vevo_Qrow w' l l' : vevo w' l l' -> forall w k, w <> w' -> Qrow l w k -> Qrow l' w k.
 Proof.
-  intros H o a Hin Ha. rewrite (step_oev g w) in Hin. destruct (H o a Hin Ha) as [r [Hr Hn]].
-  eapply vevo_exists; [apply step_vev|eauto|auto].
+  induction 1 as [l|l row Hn Hl|l f Hk Ho Hu Hnw Hlk'|l p Hp|l1 l2 l3 _ IH1 _ IH2]; intros w k Hne HQ.
+  - exact HQ.
+  - destruct HQ as [r [Hr Hq]]. exists r. split; auto. apply vfind_app_some; auto.
+  - destruct HQ as [r [Hr Hq]]. exists (f r). rewrite vfind_map by auto. rewrite Hr. split; [reflexivity|]. destruct Hq as [[Q1 Q2]|[Q1 Q2]].
+    + left. split; auto. destruct (Hlk' r) as [E|[E|E]]; rewrite E; congruence.
+    + rewrite (Ho r w Q1 Hne). auto.
+  - destruct HQ as [r [Hr Hq]]. exists r. split; auto. apply vfind_filter; auto. destruct (p r) eqn:E; auto. destruct (Hp r E) as [H1 H2].
+    destruct Hq as [[Q1 Q2]|[Q1 Q2]]; congruence.
+  - eauto.
 Qed.
 
-(* a bounded request never holds a "no row" snapshot and is locked throughout its critical section *)
-Definition Pw (ws : list wst) (w : wid) : Prop :=
-  forall s a, nth_error ws w = Some s -> allowance (w_op s) = Some a ->
-              w_norow s <> Some true /\ (crit (w_pc s) = true -> w_locked s = true).
-Definition Pg (g : gst) (w : wid) : Prop := Pw (g_ws g) w.
+(* a bounded request is locked throughout its critical section, and between the two statements of GetBalances its row is there *)
+Definition Pg (g : gst) (w : wid) : Prop :=
+  forall s a, nth_error (g_ws g) w = Some s -> allowance (w_op s) = Some a ->
+              (crit (w_pc s) = true -> w_locked s = true) /\ (w_pc s = PBal2 -> Qrow (g_vols g) w (src_key (w_op s))).
 
-Lemma Pw_upd ws w f :
-  Pw ws w ->
-  (forall s, nth_error ws w = Some s ->
-     w_op (f s) = w_op s /\
-     (forall a, allowance (w_op s) = Some a -> w_norow s <> Some true -> (crit (w_pc s) = true -> w_locked s = true) ->
-                w_norow (f s) <> Some true /\ (crit (w_pc (f s)) = true -> w_locked (f s) = true))) ->
-  Pw (upd_nth ws w f) w.
-Proof.
-  intros HP Hf s' a Hn Ha. rewrite nth_upd_same in Hn.
-  destruct (nth_error ws w) as [s|] eqn:Hs; simpl in Hn; [|discriminate]. inversion Hn; subst s'. clear Hn.
-  destruct (Hf s eq_refl) as [E1 E2]. rewrite E1 in Ha. destruct (HP s a Hs Ha) as [P1 P2]. apply (E2 a); auto.
-Qed.
-Lemma Pw_clear ws w h : Pw ws w -> Pw (clear_waits ws h) w.
-Proof.
-  intros HP s' a Hn Ha. rewrite nth_clear in Hn. destruct (nth_error ws w) as [s|] eqn:Hs; simpl in Hn; [|discriminate].
-  inversion Hn; subst s'. clear Hn. destruct (owner_is _ _); simpl in *; apply (HP s a); auto.
-Qed.
-Lemma Pg_same g g' w : g_ws g' = g_ws g -> Pg g w -> Pg g' w.
-Proof. unfold Pg. intros ->. auto. Qed.
+Lemma Pg_same g g' w : g_vols g' = g_vols g -> g_ws g' = g_ws g -> Pg g w -> Pg g' w.
+Proof. unfold Pg. intros -> ->. auto. Qed.
 Lemma Pg_ev g w w1 l st : Pg g w -> Pg (ev g w1 l st) w.
 Proof. apply Pg_same; reflexivity. Qed.
+Lemma Pg_dead g w : (forall s, nth_error (g_ws g) w = Some s -> crit (w_pc s) = false /\ w_pc s <> PBal2) -> Pg g w.
+Proof. intros H s a Hn Ha. destruct (H s Hn) as [E1 E2]. split; intros; congruence. Qed.
+Lemma Pg_dead2 g w :
+  (forall s, nth_error (g_ws g) w = Some s -> (crit (w_pc s) = true -> allowance (w_op s) = None) /\ w_pc s <> PBal2) -> Pg g w.
+Proof. intros H s a Hn Ha. destruct (H s Hn) as [E1 E2]. split; intros E; [rewrite (E1 E) in Ha; discriminate|contradiction]. Qed.
+Lemma start_pc_not_bal2 o b : start_pc o b <> PBal2.
+Proof. unfold start_pc, after_ik. destruct (_ && _); [discriminate|]. destruct (o_kind o); [destruct (has_bal o)|]; discriminate. Qed.
 Lemma Pg_upd g w f :
   Pg g w ->
   (forall s, nth_error (g_ws g) w = Some s ->
      w_op (f s) = w_op s /\
-     (forall a, allowance (w_op s) = Some a -> w_norow s <> Some true -> (crit (w_pc s) = true -> w_locked s = true) ->
-                w_norow (f s) <> Some true /\ (crit (w_pc (f s)) = true -> w_locked (f s) = true))) ->
+     (forall a, allowance (w_op s) = Some a -> (crit (w_pc s) = true -> w_locked s = true) ->
+                (crit (w_pc (f s)) = true -> w_locked (f s) = true) /\ (w_pc (f s) = PBal2 -> w_pc s = PBal2))) ->
   Pg (upd_w g w f) w.
-Proof. unfold Pg, upd_w; simpl. apply Pw_upd. Qed.
+Proof.
+  intros HP Hf s' a Hn Ha. simpl in Hn. rewrite nth_upd_same in Hn.
+  destruct (nth_error (g_ws g) w) as [s|] eqn:Hs; simpl in Hn; [|discriminate]. inversion Hn; subst s'. clear Hn.
+  destruct (Hf s eq_refl) as [E1 E2]. rewrite E1 in *. destruct (HP s a Hs Ha) as [P1 P2]. destruct (E2 a Ha P1) as [F1 F2].
+  split; auto.
+Qed.
 Ltac pg_side := let s0 := fresh "s0" in let H0 := fresh "H0" in
   intros s0 H0; simpl; split; [reflexivity|]; intros; split; simpl; auto; try discriminate; try congruence.
 
-Lemma Pg_fail_abort g w e : Pg g w -> Pg (fail_abort g w e) w.
-Proof. intros H. unfold fail_abort. apply Pg_upd; [unfold Pg, abort; simpl; apply Pw_clear; auto|pg_side]. Qed.
-Lemma Pg_fail_soft g w e : Pg g w -> Pg (fail_soft g w e) w.
-Proof. intros H. unfold fail_soft. apply Pg_upd; auto; pg_side. Qed.
+Lemma Pg_fail_abort g w e : Pg (fail_abort g w e) w.
+Proof.
+  apply Pg_dead. intros s Hn. unfold fail_abort in Hn. simpl in Hn. rewrite nth_upd_same, nth_clear in Hn.
+  destruct (nth_error (g_ws g) w); simpl in Hn; [|discriminate]. inversion Hn; subst. simpl. split; [reflexivity|discriminate].
+Qed.
+Lemma Pg_fail_soft g w e : Pg (fail_soft g w e) w.
+Proof.
+  apply Pg_dead. intros s Hn. unfold fail_soft in Hn. simpl in Hn. rewrite nth_upd_same in Hn.
+  destruct (nth_error (g_ws g) w); simpl in Hn; [|discriminate]. inversion Hn; subst. simpl. split; [reflexivity|discriminate].
+Qed.
 Lemma Pg_blocked g w h l : Pg g w -> Pg (blocked g w h l) w.
 Proof.
-  intros H. unfold blocked. destruct (reaches _ _ _ _).
-  - apply (Pg_same (fail_abort g w EDeadlock)); [reflexivity|apply Pg_fail_abort; auto].
-  - apply (Pg_same (upd_w g w (fun s => wset_wait s (Some h)))); [reflexivity|]. apply Pg_upd; auto; pg_side.
+  intros H. unfold blocked. destruct (reaches _ _ _ _); apply Pg_ev; [apply Pg_fail_abort|]. apply Pg_upd; auto; pg_side.
 Qed.
-Lemma Pg_bal_done_locked g w o r : Pg g w -> Pg (bal_done g w o r true) w.
+Lemma Pg_bal_done_locked g w o r : Pg (bal_done g w o r true) w.
 Proof.
-  intros H. unfold bal_done.
-  assert (H1 : Pg (upd_w g w (fun s => wset_read s r true)) w) by (apply Pg_upd; auto; pg_side).
-  brk; try (apply Pg_fail_soft; auto); apply Pg_upd; auto;
-    intros s0 H0; simpl in H0; rewrite nth_upd_same in H0; destruct (nth_error (g_ws g) w) as [s|]; simpl in H0; inversion H0; subst s0;
-    simpl; (split; [reflexivity|]); intros; split; try discriminate; auto.
+  intros s' a Hn Ha. unfold bal_done in Hn.
+  destruct (allowance o); [destruct (_ && _)|]; simpl in Hn; rewrite !nth_upd_same in Hn;
+    destruct (nth_error (g_ws g) w); simpl in Hn; try discriminate; inversion Hn; subst; simpl; split; auto; discriminate.
 Qed.
+Lemma Pg_to_bal2 g w : (forall s, nth_error (g_ws g) w = Some s -> Qrow (g_vols g) w (src_key (w_op s))) -> Pg (to_bal2 g w) w.
+Proof.
+  intros HQ s' a Hn Ha. unfold to_bal2 in Hn. simpl in Hn. rewrite nth_upd_same in Hn.
+  destruct (nth_error (g_ws g) w) as [s|] eqn:Hs; simpl in Hn; [|discriminate]. inversion Hn; subst s'. simpl.
+  split; [discriminate|]. intros _. apply HQ; auto.
+Qed.
+Lemma Pg_set_vols g w v : Pg g w -> (forall s, nth_error (g_ws g) w = Some s -> w_pc s <> PBal2) -> Pg (set_vols g v) w.
+Proof. intros HP Hpc s a Hn Ha. simpl in Hn. destruct (HP s a Hn Ha) as [P1 _]. split; auto. intros E. destruct (Hpc s Hn E). Qed.
 Lemma Pg_vol_loop ks : forall g w i, (forall s, nth_error (g_ws g) w = Some s -> w_pc s = PVol) -> Pg g w -> Pg (vol_loop g w ks i) w.
 Proof.
   induction ks as [|[k d] rest IH]; simpl; intros g w i Hpc HP.
-  - apply (Pg_same (upd_w g w (fun s => wset_pc (wset_volk s 0%nat) PTx))); [reflexivity|].
-    apply Pg_upd; auto. intros s0 H0. simpl. split; [reflexivity|]. intros a Ha Hn Hc. split; auto. intros _. apply Hc. rewrite (Hpc s0 H0). reflexivity.
-  - brk; try (apply IH; [exact Hpc|apply (Pg_same g); auto; reflexivity]).
+  - apply Pg_ev. apply Pg_upd; auto. intros s0 H0. simpl. split; [reflexivity|]. intros a Ha Hc. split; [|discriminate].
+    intros _. apply Hc. rewrite (Hpc s0 H0). reflexivity.
+  - brk; try (apply IH; [exact Hpc|apply Pg_set_vols; auto; intros s0 H0; rewrite (Hpc s0 H0); discriminate]).
     apply Pg_blocked. apply Pg_upd; auto; pg_side.
 Qed.
 
 Ltac pg_step G w Hs Pc :=
   let s0 := fresh "s0" in let H0 := fresh "H0" in
   apply Pg_ev; apply Pg_upd;
-  [ apply (Pg_same G); [reflexivity|auto]
+  [ apply (Pg_same G); [reflexivity|reflexivity|auto]
   | intros s0 H0; change (nth_error (g_ws G) w = Some s0) in H0; rewrite Hs in H0; inversion H0; subst s0; simpl;
-    (split; [reflexivity|]); intros; split; auto; intros _; apply Pc; reflexivity ].
+    (split; [reflexivity|]); intros; split; try discriminate; intros _; apply Pc; reflexivity ].
 
-Lemma nth_in_ops g w s : nth_error (g_ws g) w = Some s -> In (w_op s) (map w_op (g_ws g)).
-Proof. intros H. apply in_map. eapply nth_error_In; eauto. Qed.
-
-Lemma Pg_own g w : Eg g -> Pg g w -> Pg (step g w) w.
+Lemma Pg_own g w : unlocked_clean (g_vols g) -> Pg g w -> Pg (step g w) w.
 Proof.
-  intros HE HP. unfold step. destruct (get_w g w) as [s|] eqn:Hs; [|exact HP]. unfold get_w in Hs.
+  intros HU HP. unfold step. destruct (get_w g w) as [s|] eqn:Hs; [|exact HP]. unfold get_w in Hs.
   destruct (allowance (w_op s)) as [a|] eqn:Ha.
   2:{ (* an unbounded request: nothing to show, its operation never changes *)
       intros s' a' Hn Ha'. exfalso.
       assert (Ho : option_map w_op (nth_error (g_ws (step g w)) w) = option_map w_op (nth_error (g_ws g) w)).
       { rewrite <- !nth_error_map. rewrite (step_oev g w). reflexivity. }
       unfold step in Ho. rewrite Hs in Ho. unfold get_w in Ho. rewrite Hs in Ho. rewrite Hn in Ho. simpl in Ho. inversion Ho. congruence. }
-  destruct (HP s a Hs Ha) as [Pn Pc].
+  destruct (HP s a Hs Ha) as [Pc Pq].
   destruct (w_pc s) eqn:Hpc.
   - unfold do_ik. apply Pg_ev.
-    brk; try (apply Pg_fail_soft; auto); apply Pg_upd; auto; intros s0 H0; rewrite Hs in H0; inversion H0; subst s0; simpl;
-      (split; [reflexivity|]); intros; split; auto; try discriminate.
-    intros Hc. apply after_ik_crit in Hc. congruence.
-  - unfold do_rev. brk; try (apply (Pg_same (fail_soft g w ENotFound)); [reflexivity|apply Pg_fail_soft; auto]);
-      try (apply (Pg_same (fail_soft g w EAlreadyReverted)); [reflexivity|apply Pg_fail_soft; auto]);
-      try (apply Pg_blocked; auto).
-    + apply (Pg_same (upd_w g w (fun s => wset_pc s PBal))); [reflexivity|]. apply Pg_upd; auto; pg_side.
-    + eapply Pg_same; [|apply (Pg_upd g w (fun s => wset_pc s PBal)); auto; pg_side]. reflexivity.
-  - (* GetBalances: the row exists and the snapshot saw it *)
-    destruct (HE (w_op s) a (nth_in_ops g w s Hs) Ha) as [x [Hx Hnew]].
-    unfold do_bal. rewrite Hx.
-    assert (Hnr : match w_norow s with Some b => b | None => v_new x end = false).
-    { destruct (w_norow s) as [[|]|]; auto. congruence. }
-    rewrite Hnr, Hnew.
-    assert (Hwait : forall h, Pg (blocked (upd_w g w (fun s0 => wset_norow s0 (Some false))) w h LBal) w).
-    { intros h. apply Pg_blocked. apply Pg_upd; auto; pg_side. }
-    destruct (v_lock x) as [h|].
-    + destruct (v_upd x); apply Hwait.
-    + apply Pg_ev. apply Pg_bal_done_locked. apply (Pg_same g); auto; reflexivity.
+    brk; try (apply Pg_fail_soft); apply Pg_upd; auto; intros s0 H0; rewrite Hs in H0; inversion H0; subst s0; simpl;
+      (split; [reflexivity|]); intros; split; try discriminate.
+    + intros Hc. apply after_ik_crit in Hc. congruence.
+    + unfold after_ik. destruct (o_kind (w_op s)); [destruct (has_bal (w_op s))|]; discriminate.
+  - unfold do_rev. brk; try (apply Pg_ev; apply Pg_fail_soft); try (apply Pg_blocked; auto); apply Pg_ev; apply Pg_upd;
+      try (apply (Pg_same g); auto; reflexivity); pg_side.
+  - (* GetBalances, first statement *)
+    unfold do_bal. destruct (vfind (g_vols g) (src_key (w_op s))) as [x|] eqn:Hf.
+    + destruct (v_lock x) as [h|] eqn:Hl.
+      * destruct (Nat.eqb h w) eqn:Eh; [apply Pg_blocked; auto|]. apply Nat.eqb_neq in Eh.
+        assert (Hwait : forall b, Pg (blocked (upd_w g w (fun s0 => wset_norow s0 (Some b))) w h LBal) w)
+          by (intros b; apply Pg_blocked; apply Pg_upd; auto; pg_side).
+        destruct (v_new x) eqn:En; [apply Hwait|]. destruct (v_upd x); [apply Hwait|].
+        destruct (match w_norow s with Some b => b | None => false end); [|apply Hwait].
+        apply Pg_ev. apply Pg_to_bal2. intros s0 H0. rewrite Hs in H0. inversion H0; subst s0.
+        exists x. split; auto. left. split; auto. rewrite Hl. congruence.
+      * destruct (match w_norow s with Some b => b | None => v_new x end).
+        -- apply Pg_ev. apply Pg_to_bal2. intros s0 H0. rewrite Hs in H0. inversion H0; subst s0.
+           exists x. split; auto. left. destruct (vfind_key _ _ _ Hf) as [_ Hin]. destruct (HU x Hin Hl) as [_ [_ Hn]]. split; auto. rewrite Hl. discriminate.
+        -- apply Pg_ev. apply Pg_bal_done_locked.
+    + apply Pg_ev. apply Pg_to_bal2. intros s0 H0. simpl in H0. rewrite Hs in H0. inversion H0; subst s0. simpl.
+      eexists. split; [rewrite vfind_app_none by auto; simpl; rewrite ckey_eqb_refl; reflexivity|]. right. simpl. auto.
+  - (* GetBalances, second statement: the row is there *)
+    destruct (Pq eq_refl) as [r [Hr Hq]]. unfold do_bal2. rewrite Hr.
+    destruct (v_lock r) as [h|] eqn:Hl.
+    + destruct (Nat.eqb h w) eqn:Eh.
+      * apply Nat.eqb_eq in Eh. subst h. destruct Hq as [[_ Hq]|[_ Hq]]; [congruence|]. rewrite Hq. simpl. apply Pg_ev. apply Pg_bal_done_locked.
+      * apply Pg_blocked; auto.
+    + apply Pg_ev. apply Pg_bal_done_locked.
   - unfold do_vol. apply Pg_vol_loop; auto. intros s0 H0. congruence.
   - unfold do_tx. destruct (my_pending_tx g w).
-    + brk; try (apply Pg_blocked; auto); try (apply Pg_ev; apply Pg_fail_abort; auto); pg_step g w Hs Pc.
+    + brk; try (apply Pg_blocked; auto); try (apply Pg_ev; apply Pg_fail_abort); pg_step g w Hs Pc.
     + set (row := {| t_id := g_ntx g; t_ref := tx_ref (w_op s); t_own := Some w; t_rev := false; t_revlock := None; t_pend := true |}).
       set (g1 := upd_w (set_ntx (set_txs g (g_txs g ++ [row])) (g_ntx g + 1)) w (fun s0 => wset_txid s0 (Some (g_ntx g)))).
       assert (H1 : Pg g1 w) by (unfold g1; apply Pg_upd; [apply (Pg_same g); auto; reflexivity|pg_side]).
       assert (Hs1 : nth_error (g_ws g1) w = Some (wset_txid s (Some (g_ntx g)))) by (unfold g1; simpl; rewrite nth_upd_same, Hs; reflexivity).
-      brk; try (apply Pg_blocked; auto); try (apply Pg_ev; apply Pg_fail_abort; auto); pg_step g1 w Hs1 Pc.
+      brk; try (apply Pg_blocked; auto); try (apply Pg_ev; apply Pg_fail_abort); pg_step g1 w Hs1 Pc.
   - unfold do_adv. brk; try (apply Pg_blocked; auto); pg_step g w Hs Pc.
   - unfold do_log. destruct (g_hash g && negb (owner_is (g_adv g) w)); [exact HP|].
     destruct (my_pending_log g w).
-    + brk; try (apply Pg_blocked; auto); try (apply Pg_ev; apply Pg_fail_abort; auto); pg_step g w Hs Pc.
+    + brk; try (apply Pg_blocked; auto); try (apply Pg_ev; apply Pg_fail_abort); pg_step g w Hs Pc.
     + set (row := {| l_id := g_nlog g; l_ik := o_ik (w_op s); l_inh := o_inh (w_op s); l_own := Some w;
                      l_tx := match w_txid s with Some i => i | None => 0 end; l_pend := true |}).
       set (g1 := upd_w (set_nlog (set_logs g (g_logs g ++ [row])) (g_nlog g + 1)) w (fun s0 => wset_logid s0 (Some (g_nlog g)))).
       assert (H1 : Pg g1 w) by (unfold g1; apply Pg_upd; [apply (Pg_same g); auto; reflexivity|pg_side]).
       assert (Hs1 : nth_error (g_ws g1) w = Some (wset_logid s (Some (g_nlog g)))) by (unfold g1; simpl; rewrite nth_upd_same, Hs; reflexivity).
-      brk; try (apply Pg_blocked; auto); try (apply Pg_ev; apply Pg_fail_abort; auto); pg_step g1 w Hs1 Pc.
-  - unfold do_commit. unfold Pg; simpl. apply Pw_upd; [apply Pw_clear; auto|pg_side].
-  - unfold do_rollback. unfold Pg. destruct (w_err s) as [[]|]; destruct (w_retry s); destruct (String.eqb (o_ik (w_op s)) ""); simpl;
-      (apply Pw_upd; [apply Pw_clear; auto|]); intros s0 H0; simpl; (split; [reflexivity|]); intros a0 Ha0 Hn0 Hc0; split; simpl; auto; try discriminate;
-      intros Hc; apply start_pc_crit in Hc; congruence.
-  - unfold do_fetch. unfold Pg. brk; simpl; apply Pw_upd; auto; pg_side.
+      brk; try (apply Pg_blocked; auto); try (apply Pg_ev; apply Pg_fail_abort); pg_step g1 w Hs1 Pc.
+  - unfold do_commit. apply Pg_ev. apply Pg_dead. intros s0 H0. simpl in H0.
+    rewrite nth_upd_same, nth_clear, Hs in H0. simpl in H0. inversion H0; subst s0. simpl. split; [reflexivity|discriminate].
+  - unfold do_rollback. apply Pg_ev. apply Pg_dead2. intros s0 H0.
+    destruct (w_err s) as [[]|]; destruct (w_retry s); destruct (String.eqb (o_ik (w_op s)) "");
+      simpl in H0; rewrite nth_upd_same, nth_clear, Hs in H0; simpl in H0; inversion H0; subst s0; simpl;
+      (split; [first [discriminate | apply start_pc_crit] | first [discriminate | apply start_pc_not_bal2]]).
+  - unfold do_fetch. apply Pg_ev. brk; apply Pg_upd; auto; pg_side.
   - exact HP.
 Qed.
 
@@ -1279,16 +1340,17 @@ Proof.
   intros Hne HP s' a Hn Ha.
   pose proof (step_wev g w w0 Hne) as Hw. rewrite Hn in Hw. simpl in Hw.
   destruct (nth_error (g_ws g) w0) as [s|] eqn:Hs; simpl in Hw; [|discriminate].
-  unfold wcore in Hw. inversion Hw as [[E1 E2 E3 E4 E5]]. rewrite E1 in Ha. rewrite E2, E4, E5.
-  apply (HP s a); auto.
+  unfold wcore in Hw. inversion Hw as [[E1 E2 E3 E4 E5]]. rewrite E1 in *. rewrite E2, E4.
+  destruct (HP s a Hs Ha) as [P1 P2]. split; auto.
+  intros E. eapply vevo_Qrow; [apply step_vev|auto|auto].
 Qed.
 
-Definition invB (g : gst) : Prop := Eg g /\ (forall w, Pg g w) /\ Forall (fun c => c_locked c = true) (g_c06 g).
+Definition invB (g : gst) : Prop := unlocked_clean (g_vols g) /\ (forall w, Pg g w) /\ Forall (fun c => c_locked c = true) (g_c06 g).
 
 Lemma step_invB g w : invB g -> invB (step g w).
 Proof.
-  intros [HE [HP HC]]. split; [|split].
-  - apply step_Eg; auto.
+  intros [HU [HP HC]]. split; [|split].
+  - eapply vevo_clean; [apply step_vev|exact HU].
   - intros w0. destruct (Nat.eq_dec w0 w) as [->|Hne]; [apply Pg_own; auto|apply Pg_other; auto].
   - unfold step. destruct (get_w g w) as [s|] eqn:Hs; [|exact HC].
     destruct (w_pc s) eqn:Hpc;
@@ -1296,7 +1358,7 @@ Proof.
            unfold step in H; rewrite Hs, Hpc in H; rewrite (proj2 H); exact HC); try exact HC.
     unfold do_commit. simpl. apply Forall_app. split; [exact HC|].
     destruct (allowance (w_op s)) as [a|] eqn:Ha; [|constructor].
-    constructor; [|constructor]. simpl. destruct (HP w s a Hs Ha) as [_ Hc]. apply Hc. rewrite Hpc. reflexivity.
+    constructor; [|constructor]. simpl. destruct (HP w s a Hs Ha) as [Hc _]. apply Hc. rewrite Hpc. reflexivity.
 Qed.
 Theorem invB_all_schedules g sched : invB g -> invB (run g sched).
 Proof. apply run_inv. apply step_invB. Qed.
@@ -1328,15 +1390,13 @@ Proof.
   intros [HU _]. split; [exact HU|split; [|constructor]]. intros w s a Hn Ha Hl. simpl in Hn.
   destruct (nth_new_writers _ _ _ Hn) as [o ->]. simpl in Hl. discriminate.
 Qed.
-(* the hypothesis of C06_conc: every bounded request's source row exists (committed) before the race *)
-Definition rows_exist (g : gst) (ops : list cop) : Prop :=
-  forall o a, In o ops -> allowance o = Some a -> exists r, vfind (g_vols g) (src_key o) = Some r /\ v_new r = false.
-Lemma invB_reseat g ops : rows_exist g ops -> invB (reseat g ops).
+Lemma invB_reseat g ops : unlocked_clean (g_vols g) -> invB (reseat g ops).
 Proof.
-  intros HR. split; [|split; [|constructor]].
-  - intros o a Hin Ha. simpl in Hin. rewrite map_map in Hin. simpl in Hin. rewrite map_id in Hin. apply (HR o a); auto.
-  - intros w s a Hn Ha. simpl in Hn. destruct (nth_new_writers _ _ _ Hn) as [o ->]. simpl in *.
-    split; [discriminate|]. intros Hc. apply start_pc_crit in Hc. congruence.
+  intros HU. split; [exact HU|split; [|constructor]].
+  intros w s a Hn Ha. simpl in Hn. destruct (nth_new_writers _ _ _ Hn) as [o ->]. simpl in *.
+  split.
+  - intros Hc. apply start_pc_crit in Hc. congruence.
+  - unfold start_pc, after_ik. destruct (_ && _); try discriminate. destruct (o_kind o); try discriminate. destruct (has_bal o); discriminate.
 Qed.
 
 (* ---------------------------------------------------------------- the statements, on the visible tables *)
@@ -1368,9 +1428,11 @@ Lemma outcome_log_inv hash prefix writers sched : log_inv (sched_outcome hash pr
 Proof. apply log_inv_all_schedules. apply log_inv_reseat. apply log_inv_all_schedules. apply log_inv_init. Qed.
 Lemma outcome_invA hash prefix writers sched : invA (sched_outcome hash prefix writers sched).
 Proof. apply invA_all_schedules. apply invA_reseat. apply invA_all_schedules. apply invA_init. Qed.
-Lemma outcome_invB hash prefix writers sched :
-  rows_exist (after_prefix hash prefix writers) writers -> invB (sched_outcome hash prefix writers sched).
-Proof. intros H. apply invB_all_schedules. unfold after_prefix in *. apply invB_reseat. exact H. Qed.
+Lemma outcome_invB hash prefix writers sched : invB (sched_outcome hash prefix writers sched).
+Proof.
+  apply invB_all_schedules. unfold after_prefix. apply invB_reseat.
+  apply (proj1 (invA_all_schedules _ _ (invA_init hash prefix))).
+Qed.
 
 (* compatibility: the id part alone *)
 Definition ids_inv (g : gst) : Prop :=
@@ -1378,3 +1440,35 @@ Definition ids_inv (g : gst) : Prop :=
   (NoDup (map l_id (g_logs g)) /\ Forall (fun l => l_id l < g_nlog g) (g_logs g)).
 Lemma inv_ids g : tx_inv g -> log_inv g -> ids_inv g.
 Proof. intros [A B _ _ _ _ _] [C D _ _ _ _]. split; split; auto. apply sorted_nodup; auto. Qed.
+
+(* ---------------------------------------------------------------- nextval is monotone: ids drawn later are larger *)
+Lemma tevo_new_ids l n r l' n' r' : tevo l n r l' n' r' ->
+  n <= n' /\ forall x', In x' l' -> (exists x, In x l /\ t_id x = t_id x') \/ n <= t_id x'.
+Proof.
+  induction 1 as [l n r|l n r row Hi Hp Hrv Hrl|l n r f Hf|l n r p|l n r f id k Hf Hk Hnk|l n r w|l1 n1 r1 l2 n2 r2 l3 n3 r3 _ IH1 _ IH2].
+  - split; [lia|]. intros x' Hx. left. eauto.
+  - split; [lia|]. intros x' Hx. apply in_app_iff in Hx. destruct Hx as [Hx|[Hx|[]]]; [left; eauto|right; subst; lia].
+  - split; [lia|]. intros x' Hx. apply in_map_iff in Hx. destruct Hx as [z [Hz Hin]]. subst. left. exists z. split; auto. symmetry. apply Hf.
+  - split; [lia|]. intros x' Hx. apply filter_In in Hx. left. exists x'. tauto.
+  - split; [lia|]. intros x' Hx. apply in_map_iff in Hx. destruct Hx as [z [Hz Hin]]. subst. left. exists z. split; auto. symmetry. apply Hf.
+  - split; [lia|]. intros x' Hx. apply in_map_iff in Hx. destruct Hx as [z [Hz Hin]]. subst. left. exists z. split; auto.
+  - destruct IH1 as [A1 B1], IH2 as [A2 B2]. split; [lia|]. intros x' Hx. destruct (B2 x' Hx) as [[y [Hy E]]|H]; [|right; lia].
+    destruct (B1 y Hy) as [[z [Hz E']]|H]; [left; exists z; split; auto; congruence|right; lia].
+Qed.
+
+Lemma run_tev : forall sched g, tevo (g_txs g) (g_ntx g) (g_revs g) (g_txs (run g sched)) (g_ntx (run g sched)) (g_revs (run g sched)).
+Proof.
+  induction sched as [|w r IH]; simpl; intros g; [apply te_refl|].
+  eapply te_trans; [apply step_tev|apply IH].
+Qed.
+
+(* every transaction id that appears in the table during a run is larger than every id that was there before: a request whose
+   statements all run after another one's COMMIT receives the larger id *)
+Theorem later_ids_are_larger g sched : tx_inv g ->
+  forall t t', In t (g_txs g) -> In t' (g_txs (run g sched)) -> ~ In (t_id t') (map t_id (g_txs g)) -> t_id t < t_id t'.
+Proof.
+  intros HI t t' Ht Ht' Hnew. destruct (tevo_new_ids _ _ _ _ _ _ (run_tev sched g)) as [_ H].
+  destruct (H t' Ht') as [[x [Hx E]]|Hge].
+  - exfalso. apply Hnew. rewrite <- E. apply in_map; auto.
+  - pose proof (tx_below _ _ _ HI) as B. rewrite Forall_forall in B. specialize (B t Ht). lia.
+Qed.
